@@ -120,17 +120,43 @@ func sweepSeeds(repo string) (seeds []sweepSeed, notes []string) {
 // seeds whose plain decoding hung while the inputs were being derived (index -> Case)
 var sweepPairHangs sync.Map
 
+func sweepNorm(n string) string {
+	return strings.Map(func(r rune) rune {
+		switch {
+		case r >= 'A' && r <= 'Z':
+			return r + 32
+		case r >= 'a' && r <= 'z', r >= '0' && r <= '9':
+			return r
+		}
+		return -1
+	}, n)
+}
+
+// sweepNameMatch: seed "diameter_test.go:15" and layer type "Diameter".
+func sweepNameMatch(seedName string, lt gopacket.LayerType) bool {
+	i := strings.Index(seedName, "_test.go")
+	if i < 0 {
+		return false
+	}
+	stem, tn := sweepNorm(seedName[:i]), sweepNorm(lt.String())
+	if len(stem) < 3 || len(tn) < 3 {
+		return false
+	}
+	return strings.Contains(tn, stem) || strings.Contains(stem, tn)
+}
+
 // sweepPair is an input for one layer type, found inside a seed at the offset where that layer starts.
 type sweepPair struct {
 	lt    gopacket.LayerType
 	data  []byte
 	score int // number of layers of the packet it came from (a proxy for "valid")
 	src   string
+	inner []int // offsets inside data where the seed's inner layers start
 }
 
 func sweepPairs(dom *sweepDom, seeds []sweepSeed, perType int) map[gopacket.LayerType][]sweepPair {
 	byKey := map[string]*sweepPair{}
-	add := func(lt gopacket.LayerType, d []byte, score int, src string) {
+	add := func(lt gopacket.LayerType, d []byte, score int, src string, inner []int) {
 		if len(d) == 0 {
 			return
 		}
@@ -141,7 +167,7 @@ func sweepPairs(dom *sweepDom, seeds []sweepSeed, perType int) map[gopacket.Laye
 			}
 			return
 		}
-		byKey[k] = &sweepPair{lt, append([]byte(nil), d...), score, src}
+		byKey[k] = &sweepPair{lt, append([]byte(nil), d...), score, src, inner}
 	}
 	type job struct {
 		s     sweepSeed
@@ -162,6 +188,7 @@ func sweepPairs(dom *sweepDom, seeds []sweepSeed, perType int) map[gopacket.Laye
 		d     []byte
 		score int
 		src   string
+		inner []int
 	}
 	res := make([][]found, len(jobs))
 	fin := make([]int32, len(jobs))
@@ -182,19 +209,38 @@ func sweepPairs(dom *sweepDom, seeds []sweepSeed, perType int) map[gopacket.Laye
 						good++
 					}
 				}
-				if !(j.s.first >= 0 || (pk.ErrorLayer() == nil && good >= 2) || good >= 3) {
+				// a literal of X_test.go that decodes cleanly as the layer type named X is taken even when it is a single
+				// layer (raw Diameter, sFlow, BFD ... messages); otherwise two layers are required to rule out lenient decoders
+				named := pk.ErrorLayer() == nil && good >= 1 && sweepNameMatch(j.s.name, j.first)
+				if !(j.s.first >= 0 || named || (pk.ErrorLayer() == nil && good >= 2) || good >= 3) {
 					return
 				}
 				score := good
 				if pk.ErrorLayer() == nil {
 					score += 10
 				}
-				for _, l := range ls {
+				if named {
+					score += 20
+				}
+				for li, l := range ls {
 					if _, bad := l.(*gopacket.DecodeFailure); bad {
 						continue
 					}
 					d := append(append([]byte(nil), l.LayerContents()...), l.LayerPayload()...)
-					fs = append(fs, found{l.LayerType(), d, score, j.s.name})
+					// where the following layers start inside d (layers are contiguous: contents, then the next layer)
+					var inner []int
+					off := len(l.LayerContents())
+					for _, m := range ls[li+1:] {
+						if _, bad := m.(*gopacket.DecodeFailure); bad || off <= 0 || off >= len(d) || len(inner) >= 6 {
+							break
+						}
+						inner = append(inner, off)
+						if len(m.LayerContents()) == 0 {
+							break
+						}
+						off += len(m.LayerContents())
+					}
+					fs = append(fs, found{l.LayerType(), d, score, j.s.name, inner})
 				}
 			}()
 			if atomic.CompareAndSwapInt32(&fin[i], 0, 1) {
@@ -214,7 +260,7 @@ func sweepPairs(dom *sweepDom, seeds []sweepSeed, perType int) map[gopacket.Laye
 		})
 	for _, fs := range res {
 		for _, f := range fs {
-			add(f.lt, f.d, f.score, f.src)
+			add(f.lt, f.d, f.score, f.src, f.inner)
 		}
 	}
 	out := map[gopacket.LayerType][]sweepPair{}
@@ -325,6 +371,113 @@ func sweepLenMutations(x []byte) [][]byte {
 	return out
 }
 
+// sweepConsistentLen returns x cut or zero-extended to newLen with its length fields made consistent with the
+// new extent (changed=false when no field qualified, i.e. the result is a plain truncation/extension).
+// A field is 1..4 bytes wide, big- or little-endian, non-zero, and, with L=len(x), delta=newLen-L:
+//
+//	header fields (every mode): at offset o within 64 bytes of a base b (b = 0 or the start of an inner layer of
+//	  the seed) whose value is Lb-c, Lb-(o-b)-c or Lb-(o-b)-w-c for Lb = L-b and c in {0,4,8,12,20};
+//	tail fields (mode 1: width >= 2, mode 2: every width): anywhere in the last 1 KiB, whose value is the
+//	  distance from s to the end of the input for s in {o+w, o, o-1, o-2, o-4, o-5, o-8}: the length of an
+//	  inner TLV / AVP / option that ends exactly where the input ends.
+//
+// Every qualifying field gets value+delta (skipped when that does not fit); wider fields win over the
+// narrower ones they contain.
+func sweepConsistentLen(x []byte, inner []int, newLen int, mode int) (y []byte, changed bool) {
+	L := len(x)
+	delta := newLen - L
+	y = make([]byte, newLen)
+	copy(y, x)
+	lim := L
+	if newLen < lim {
+		lim = newLen
+	}
+	done := make([]bool, lim)
+	get := func(o, w int, le bool) int {
+		v := 0
+		for i := 0; i < w; i++ {
+			if le {
+				v |= int(x[o+i]) << (8 * uint(i))
+			} else {
+				v = v<<8 | int(x[o+i])
+			}
+		}
+		return v
+	}
+	put := func(o, w int, le bool, v int) {
+		for i := 0; i < w; i++ {
+			if le {
+				y[o+i] = byte(v >> (8 * uint(i)))
+			} else {
+				y[o+i] = byte(v >> (8 * uint(w-1-i)))
+			}
+			done[o+i] = true
+		}
+		changed = true
+	}
+	try := func(o, w int, match func(v int) bool) {
+		if o < 0 || o+w > lim {
+			return
+		}
+		for i := 0; i < w; i++ {
+			if done[o+i] {
+				return
+			}
+		}
+		for _, le := range []bool{false, true} {
+			if le && w == 1 {
+				break
+			}
+			v := get(o, w, le)
+			if v == 0 || !match(v) {
+				continue
+			}
+			nv := v + delta
+			if nv < 0 || nv >= 1<<(8*uint(w)) {
+				continue
+			}
+			put(o, w, le, nv)
+			return
+		}
+	}
+	consts := []int{0, 4, 8, 12, 20}
+	bases := append([]int{0}, inner...)
+	for w := 4; w >= 1; w-- {
+		for _, b := range bases {
+			Lb := L - b
+			for o := b; o < b+64; o++ {
+				rel := o - b
+				try(o, w, func(v int) bool {
+					for _, c := range consts {
+						if v == Lb-c || v == Lb-rel-c || v == Lb-rel-w-c {
+							return true
+						}
+					}
+					return false
+				})
+			}
+		}
+		if mode == 0 || (mode == 1 && w < 2) {
+			continue
+		}
+		lo := L - 1024
+		if lo < 0 {
+			lo = 0
+		}
+		for o := L - 1; o >= lo; o-- {
+			try(o, w, func(v int) bool {
+				for _, s := range []int{o + w, o, o - 1, o - 2, o - 4, o - 5, o - 8} {
+					if s >= 0 && v == L-s {
+						return true
+					}
+				}
+				return false
+			})
+		}
+	}
+	return y, changed
+}
+
 func abs(a int) int {
 	if a < 0 {
 		return -a
@@ -342,13 +495,14 @@ type sweepBudget struct {
 	combos     int     // option sets sampled per mutated input
 	lenFrac    float64 // fraction of the length-field mutants kept
 	genStep    int     // generated inputs longer than 64 bytes: every genStep-th length
+	clFrac     float64 // fraction of the consistent-length cut/extension variants kept (cuts of 1..4 bytes always)
 }
 
 func sweepBudgetFor(tier string) sweepBudget {
 	if tier == "thorough" {
-		return sweepBudget{perType: 40, truncAll: 1 << 20, forceFrac: 1, genLen: 128, genRand: 8, wholeFirst: 1, combos: 3, lenFrac: 1, genStep: 1}
+		return sweepBudget{perType: 40, truncAll: 1 << 20, forceFrac: 1, genLen: 128, genRand: 8, wholeFirst: 1, combos: 3, lenFrac: 1, genStep: 1, clFrac: 1}
 	}
-	return sweepBudget{perType: 10, truncAll: 160, forceFrac: 0.2, genLen: 128, genRand: 2, wholeFirst: 0.15, combos: 1, lenFrac: 0.6, genStep: 2}
+	return sweepBudget{perType: 10, truncAll: 160, forceFrac: 0.2, genLen: 128, genRand: 2, wholeFirst: 0.15, combos: 1, lenFrac: 0.6, genStep: 2, clFrac: 0.2}
 }
 
 func (sweep) Gen(rng *rand.Rand, tier string) []Case {
@@ -432,6 +586,46 @@ func (sweep) Gen(rng *rand.Rand, tier string) []Case {
 				for _, y := range sweepLenMutations(x) {
 					if r.Float64() < bud.lenFrac {
 						add("len", sweepMask(r, bud.combos), y)
+					}
+				}
+				// consistent-length truncation / extension: the input is cut (or extended) AND the length fields that
+				// described the old extent are rewritten, so that an outer "message length" check does not stop the
+				// decoder before it reaches the inner framing (see sweepConsistentLen)
+				{
+					L := len(x)
+					var newLens []int
+					for d := 1; d <= 8 && d < L; d++ {
+						newLens = append(newLens, L-d)
+					}
+					for k := 0; k < 3 && L > 10; k++ {
+						newLens = append(newLens, 1+r.Intn(L-9))
+					}
+					for _, d := range []int{1, 2, 3, 4, 8} {
+						if L+d <= 65536 {
+							newLens = append(newLens, L+d)
+						}
+					}
+					for _, nl := range newLens {
+						var prev [][]byte
+						for mode := 0; mode < 3; mode++ {
+							always := mode == 1 && nl < L && L-nl <= 4
+							keep := always || r.Float64() < bud.clFrac
+							y, changed := sweepConsistentLen(x, p.inner, nl, mode)
+							if !keep || !changed {
+								continue
+							}
+							dup := false
+							for _, q := range prev {
+								if bytes.Equal(q, y) {
+									dup = true
+								}
+							}
+							if dup {
+								continue
+							}
+							prev = append(prev, y)
+							add("clcut", sweepMask(r, bud.combos), y)
+						}
 					}
 				}
 				// repeat what follows a plausible fixed header: makes multi-chunk / multi-TLV inputs
